@@ -264,4 +264,97 @@ Section Pass.
     frun matches fnew (evs ++ [Line s]) =
     frun matches fnew evs ++ (if pass (ffinal (acts_of evs)) s then [s] else []).
   Proof. rewrite frun_app, fstate_fold. cbn. destruct (pass _ s); reflexivity. Qed.
+
+  (* ---- the bounded log channel and its consumer: whoever moves, nothing is lost ---- *)
+  (* what has been delivered, what waits in the channel, and what the rule still owes *)
+  Definition ptotal (p : pipe) : list string := deliv p ++ pbuf p ++ frun matches (pf p) (pend p).
+
+  Lemma pstep_total cap p a q : pstep matches cap p a = Some q -> ptotal q = ptotal p.
+  Proof.
+    unfold ptotal. destruct p as [f pe b d]. destruct a; cbn [pstep pf pend pbuf deliv].
+    - destruct pe as [|[c|s] r]; [discriminate| |].
+      + intros H; injection H as <-. reflexivity.
+      + cbn [frun]. destruct (pass f s).
+        * destruct (length b <? cap)%nat; [|discriminate]. intros H; injection H as <-.
+          cbn [pf pend pbuf deliv]. rewrite <- !app_assoc. reflexivity.
+        * intros H; injection H as <-. reflexivity.
+    - destruct b as [|x r]; [discriminate|]. intros H; injection H as <-.
+      cbn [pf pend pbuf deliv]. rewrite <- !app_assoc. reflexivity.
+    - destruct pe as [|[c|s] r]; try discriminate. destruct b; [|discriminate].
+      cbn [frun]. destruct (pass f s); [|discriminate]. intros H; injection H as <-.
+      cbn [pf pend pbuf deliv]. rewrite <- !app_assoc. reflexivity.
+  Qed.
+
+  Lemma pstep_measure cap p a q : pstep matches cap p a = Some q -> (pmeasure q < pmeasure p)%nat.
+  Proof.
+    unfold pmeasure. destruct p as [f pe b d]. destruct a; cbn [pstep pf pend pbuf deliv].
+    - destruct pe as [|[c|s] r]; [discriminate| |].
+      + intros H; injection H as <-. cbn. lia.
+      + destruct (pass f s).
+        * destruct (length b <? cap)%nat; [|discriminate]. intros H; injection H as <-.
+          cbn [pf pend pbuf deliv length]. rewrite app_length. cbn. lia.
+        * intros H; injection H as <-. cbn. lia.
+    - destruct b as [|x r]; [discriminate|]. intros H; injection H as <-. cbn. lia.
+    - destruct pe as [|[c|s] r]; try discriminate. destruct b; [|discriminate].
+      destruct (pass f s); [|discriminate]. intros H; injection H as <-. cbn. lia.
+  Qed.
+
+  Lemma pmove_total cap p a : ptotal (pmove matches cap p a) = ptotal p.
+  Proof. unfold pmove. destruct (pstep matches cap p a) eqn:E; [eapply pstep_total; exact E|reflexivity]. Qed.
+
+  Lemma prun_total_from cap sched p : ptotal (prun matches cap p sched) = ptotal p.
+  Proof.
+    revert p; induction sched as [|a sched IH]; intros p; [reflexivity|].
+    cbn [prun fold_left]. fold (prun matches cap (pmove matches cap p a) sched). rewrite IH. apply pmove_total.
+  Qed.
+
+  (* for EVERY capacity and EVERY schedule of filter and consumer moves (so: however long the
+     consumer does not read, however full the channel): delivered ++ in the channel ++ still owed
+     is exactly what the rule lets through - no line lost, none duplicated, order kept *)
+  Theorem pipe_loses_nothing cap sched evs :
+    let p := prun matches cap (pinit evs) sched in
+    deliv p ++ pbuf p ++ frun matches (pf p) (pend p) = frun matches fnew evs.
+  Proof. cbv zeta. apply (prun_total_from cap sched (pinit evs)). Qed.
+
+  (* so, once every event has been handled and the channel is drained, exactly the permitted lines
+     have arrived *)
+  Theorem pipe_finished_exact cap sched evs :
+    pdone (prun matches cap (pinit evs) sched) = true ->
+    deliv (prun matches cap (pinit evs) sched) = frun matches fnew evs.
+  Proof.
+    intros D. pose proof (pipe_loses_nothing cap sched evs) as T. cbv zeta in T.
+    unfold pdone in D. apply andb_prop in D as [D1 D2].
+    destruct (pend (prun matches cap (pinit evs) sched)); [|discriminate].
+    destruct (pbuf (prun matches cap (pinit evs) sched)); [|discriminate].
+    cbn in T. rewrite app_nil_r in T. exact T.
+  Qed.
+
+  (* at any moment (e.g. when the context is cancelled) what has arrived is a prefix of them *)
+  Theorem pipe_delivered_is_prefix cap sched evs :
+    exists rest, frun matches fnew evs = deliv (prun matches cap (pinit evs) sched) ++ rest.
+  Proof. eexists. symmetry. apply (pipe_loses_nothing cap sched evs). Qed.
+
+  (* never stuck: while something is left, the filter or the consumer can move *)
+  Theorem pipe_progress cap p : pdone p = false -> exists a q, pstep matches cap p a = Some q.
+  Proof.
+    destruct p as [f pe b d]. unfold pdone. cbn [pend pbuf]. intros D.
+    destruct b as [|x r].
+    - destruct pe as [|[c|s] pe']; [discriminate| |].
+      + exists StepFilter. eexists. reflexivity.
+      + destruct (pass f s) eqn:P.
+        * exists StepRendezvous. eexists. cbn [pstep pend pbuf pf]. rewrite P. reflexivity.
+        * exists StepFilter. eexists. cbn [pstep pend pbuf pf]. rewrite P. reflexivity.
+    - exists StepConsumer. eexists. reflexivity.
+  Qed.
+
+  (* and every move lowers the measure: a schedule that keeps moving finishes *)
+  Theorem pipe_completes cap p : exists sched, pdone (prun matches cap p sched) = true.
+  Proof.
+    remember (pmeasure p) as n eqn:M. revert p M.
+    induction n as [n IH] using lt_wf_ind. intros p M.
+    destruct (pdone p) eqn:D; [exists []; exact D|].
+    destruct (pipe_progress cap p D) as (a & q & S).
+    destruct (IH (pmeasure q) ltac:(subst n; eapply pstep_measure; exact S) q eq_refl) as (sched & Hs).
+    exists (a :: sched). cbn [prun fold_left]. unfold pmove at 2. rewrite S. exact Hs.
+  Qed.
 End Pass.
